@@ -68,6 +68,16 @@ def build_det(d):
         m[a2] <<= pyrtl.MemBlock.EnabledWrite(~d_, we2)
         o = pyrtl.Output(2, 'o')
         o <<= m[a2]
+    elif k == 'mem3':
+        # three memories, all given initial contents by concrete_trace(): anything emitted per memory has an order to get wrong
+        a, d_, we = pyrtl.Input(2, 'a'), pyrtl.Input(3, 'd'), pyrtl.Input(1, 'we')
+        acc = None
+        for i in range(3):
+            m = pyrtl.MemBlock(bitwidth=3, addrwidth=2, name='m%d' % i, asynchronous=True)
+            m[a] <<= pyrtl.MemBlock.EnabledWrite(d_ if i != 1 else ~d_, we)
+            acc = m[a] if acc is None else acc ^ m[a]
+        o = pyrtl.Output(3, 'o')
+        o <<= acc
     elif k == 'func_rom':
         # function-backed ROM whose bitwidth is smaller than its addrwidth (output_to_firrtl materialises the data in place)
         rom = pyrtl.RomBlock(bitwidth=2, addrwidth=4, romdata=lambda a: (a * 3 + 1) % 4, name='rom', asynchronous=True)
@@ -215,7 +225,9 @@ def emit(kind, block, trace=None):
 
 
 def concrete_trace(block, K=2):
-    sim = pyrtl.Simulation(block=block, tracer=pyrtl.SimulationTrace(
+    mems = sorted({n.op_param[1] for n in block.logic_subset('m@') if not isinstance(n.op_param[1], pyrtl.RomBlock)}, key=lambda m: m.name)
+    mvm = {m: {0: (5 + 3 * i) & ((1 << m.bitwidth) - 1), (1 << m.addrwidth) - 1: 1} for i, m in enumerate(mems)}
+    sim = pyrtl.Simulation(block=block, memory_value_map=mvm, tracer=pyrtl.SimulationTrace(
         wires_to_track=sorted(block.wirevector_subset((pyrtl.Input, pyrtl.Output, pyrtl.Register)), key=lambda w: w.name), block=block))
     for t in range(K):
         sim.step({w.name: (t + 1) & w.bitmask for w in block.wirevector_subset(pyrtl.Input)})
@@ -621,14 +633,15 @@ def run_keys(case, ob, site):
 def cases(tier, seed):
     out = [{'k': 'keys'}]
     dets = [{'fam': 'DET', 'kind': 'small'}, {'fam': 'DET', 'kind': 'bad_names'}, {'fam': 'DET', 'kind': 'tie_names', 'names': ['a1', 'a01']},
-            {'fam': 'DET', 'kind': 'mem'}, {'fam': 'DET', 'kind': 'case_names'}]
+            {'fam': 'DET', 'kind': 'mem'}, {'fam': 'DET', 'kind': 'case_names'}, {'fam': 'DET', 'kind': 'mem3'}]
     for d in dets:
         for e in EMITTERS:
             if e == 'firrtl' and d['kind'] in ('bad_names', 'mem'):
                 continue
             out.append(dict(d, k='determinism', emitter=e, sample=None if tier != 'quick' else 30))
     for d in [{'fam': 'COND20', 'kind': 'cond_chain'}, {'fam': 'COND20', 'kind': 'cond_nested'}, {'fam': 'COND20', 'kind': 'cond_mem'},
-              {'fam': 'DET', 'kind': 'small'}, {'fam': 'DET', 'kind': 'mem'}, {'fam': 'DET', 'kind': 'bad_names'}]:
+              {'fam': 'DET', 'kind': 'small'}, {'fam': 'DET', 'kind': 'mem'}, {'fam': 'DET', 'kind': 'bad_names'},
+              {'fam': 'DET', 'kind': 'mem3'}]:
         for ch in range(4):
             out.append(dict(d, k='build', sample=120 if tier == 'quick' else None, chunk=ch))
     ro = designs.expr_cases(6 if tier == 'quick' else 150, seed + 51, n=6, maxw=4, nrom=0, ops=['+', '-', '&', '|', '^', '~', '<', 'x', 'c', 's', 'trunc', 'const']) + \
